@@ -35,7 +35,7 @@ def gen_plan(rng, cap, termdelay=2):
                 has_exit = True
                 a = rng.choice([0, 1, 7, 255])
             elif k in ("out", "err", "cread"):
-                a = rng.choice([1, 2, cap // 2 or 1, cap, cap + 3])
+                a = rng.choice([1, 2, cap // 2 or 1, cap - 1, cap, cap + 3])
             elif k == "cclose":
                 a = rng.choice([0, 1, 2])
             else:
@@ -54,14 +54,16 @@ def gen_plan(rng, cap, termdelay=2):
     for _ in range(rng.randint(3, 14)):
         h = rng.randint(1, nh)
         k = rng.choice(["poll", "poll", "read", "read", "write", "close", "wait", "wait", "terminate", "kill", "stop", "pid", "sleep", "sleep", "drain", "start"])
+        if k == "drain" and cap > 4096:
+            k = "read"   # (the number of sink calls depends on drain's internal buffer size; only exercised with small pipes)
         if k == "poll":
             n = rng.choice([1, 1, 2, 3])
             src = [[rng.choice([0] + list(range(1, nh + 1))), rng.choice([2, 6, 8, 10, 15, 1, 0, 31])] for _ in range(n)]
             steps.append({"e": "call", "fn": "poll", "h": 0, "src": src, "to": rng.choice([0, 1, 2, 5, -1])})
         elif k == "read":
-            steps.append({"e": "call", "fn": "read", "h": h, "s": rng.choice([1, 1, 2]), "n": rng.choice([1, 2, cap, 2 * cap]), "nullbuf": 0})
+            steps.append({"e": "call", "fn": "read", "h": h, "s": rng.choice([1, 1, 2]), "n": rng.choice([1, 2, cap - 1, cap, cap + 1, 2 * cap, 16 * cap]), "nullbuf": 0})
         elif k == "write":
-            steps.append({"e": "call", "fn": "write", "h": h, "n": rng.choice([0, 1, cap // 2 or 1, cap, cap + 2]), "nullbuf": 0})
+            steps.append({"e": "call", "fn": "write", "h": h, "n": rng.choice([0, 1, cap // 2 or 1, cap - 1, cap, cap + 1, cap + 2, 3 * cap, 16 * cap]), "nullbuf": 0})
         elif k == "close":
             steps.append({"e": "call", "fn": "close", "h": h, "s": rng.choice([0, 0, 1, 2])})
         elif k == "wait":
